@@ -253,6 +253,10 @@ type GenomeSpec struct {
 	AllowDisabled   bool
 	MaxHidden       int
 	ActSwarm        bool
+	// OutToOut: forward links from an output neuron to a later output neuron (what add-link produces between outputs)
+	OutToOut bool
+	// NoInputsSometimes: one genome in eight has bias nodes as its only sensors (zero input neurons)
+	NoInputsSometimes bool
 }
 
 // BuildGenome hand-builds a well-formed non-modular genome: sensors first (ascending ids), consecutive trait ids from 1,
@@ -275,6 +279,9 @@ func BuildGenome(t *Tape, spec GenomeSpec) *genetics.Genome {
 	nBias := t.Pick("nBias", 3, 5, 1)
 	nOut := t.Range("nOut", 1, 3)
 	nHid := t.Range("nHid", 0, spec.MaxHidden)
+	if spec.NoInputsSometimes && nBias > 0 && t.Chance("noInputs", 1, 8) {
+		nIn = 0
+	}
 	pickTrait := func() *neat.Trait {
 		if t.Chance("nodeTrait", 1, 3) {
 			return traits[t.Draw("tr", nTraits)]
@@ -360,6 +367,15 @@ func BuildGenome(t *Tape, spec GenomeSpec) *genetics.Genome {
 		}
 		for _, o := range outs {
 			addGene(h, o, false, false)
+		}
+	}
+	if spec.OutToOut {
+		for i, o := range outs {
+			for _, o2 := range outs[i+1:] {
+				if t.Chance("outToOut", 1, 5) {
+					addGene(o, o2, false, true)
+				}
+			}
 		}
 	}
 	if !spec.FeedForwardOnly {
